@@ -5,6 +5,7 @@ pub mod io {
     pub use super::IoErrorKind as ErrorKind;
     #[verifier::external_body]
     pub struct Error { k: ErrorKind }
+    pub type Result<T> = core::result::Result<T, Error>;
     impl Error {
         pub uninterp spec fn spec_kind(&self) -> ErrorKind;
         #[verifier::external_body]
